@@ -562,6 +562,41 @@ static std::string restartCycles(bool udp, int cycles)
   return verdict.empty() ? "Y ok" : "Y" + verdict;
 }
 
+
+// operations issued while shutdownDrain reports the residual commands (after the queue was swapped out) must be
+// refused: nothing would ever execute or fail them
+static std::string residualWindow(bool udp)
+{
+  TransportConfig cfg;
+  cfg.protocol = udp ? Protocol::UDP : Protocol::TCP;
+  auto tr = udp ? Transport::udp(cfg) : Transport::tcp(cfg);
+  std::atomic<SessionId> hookSid{0};
+  std::atomic<int> acceptedLate{0}, refusedLate{0};
+  tr->onClose([&](SessionId sid, const TransportErrorInfo &)
+  {
+    if (sid != hookSid.load() || sid == 0) return;
+    // we are inside the residual loop of shutdownDrain, on the I/O thread
+    auto r = tr->connect("127.0.0.1", 9, TlsMode::None);
+    if (r.isOk()) acceptedLate++; else refusedLate++;
+    if (tr->close(12345)) acceptedLate++; else refusedLate++;
+  });
+  if (!tr->start().isOk()) return "STARTFAIL";
+  ::iora::verif::yield = [&](const char *tag)
+  {
+    if (std::strstr(tag, "shutdown.before_queue_close") == nullptr) return;
+    auto r = tr->connect("127.0.0.1", 9, TlsMode::None);
+    if (r.isOk()) hookSid = r.value();
+  };
+  tr->stop();
+  ::iora::verif::yield = nullptr;
+  std::string verdict;
+  if (hookSid.load() == 0) verdict += " hook-connect-refused";
+  if (acceptedLate.load() > 0) verdict += " operation-accepted-after-queue-drained=" + std::to_string(acceptedLate.load());
+  if (hookSid.load() != 0 && refusedLate.load() == 0 && acceptedLate.load() == 0) verdict += " residual-connect-not-closed";
+  tr.reset();
+  return verdict.empty() ? "K ok" : "K" + verdict;
+}
+
 int main(int argc, char **argv)
 {
   if (argc < 3) return 2;
@@ -582,6 +617,7 @@ int main(int argc, char **argv)
       else if (p[0] == "X" && p.size() >= 5) r = storm(p[1] == "udp", std::stoi(p[2]), std::stoi(p[3]), static_cast<unsigned>(std::stoul(p[4])));
       else if (p[0] == "C" && p.size() >= 2) r = selfDestruct(p[1]);
       else if (p[0] == "Y" && p.size() >= 3) r = restartCycles(p[1] == "udp", std::stoi(p[2]));
+      else if (p[0] == "K" && p.size() >= 2) r = residualWindow(p[1] == "udp");
       else r = "BADCASE";
     }
     catch (const std::exception &e)
